@@ -1192,11 +1192,12 @@ func (y *Extension) getOriginalParent() Definition {
 }
 
 type Bit struct {
-	ident      string
-	desc       string
-	ref        string
-	Position   int
-	extensions []*Extension
+	ident       string
+	desc        string
+	ref         string
+	Position    int
+	positionSet bool // position was stated or has been assigned
+	extensions  []*Extension
 }
 
 type Enum struct {
@@ -1205,6 +1206,7 @@ type Enum struct {
 	desc       string
 	ref        string
 	val        int
+	valSet     bool // value was stated or has been assigned
 	ifs        []*IfFeature
 	extensions []*Extension
 }
